@@ -44,6 +44,7 @@ func (r *verifRecorder) Write(b []byte) (int, error) {
 	r.body = append(r.body, b...)
 	return len(b), nil
 }
+
 // Flush sends what has been buffered: as in net/http it commits the header (status 200) if none was written yet.
 func (r *verifRecorder) Flush() {
 	if !r.wroteHeader {
@@ -197,3 +198,93 @@ func verifH_C14_middleware() { verifC14(3) }
 
 //verif:harness id=C14 tier=thorough witness=end bounds="as quick with handler call sequences of length 0..5"
 func verifH_C14_middleware5() { verifC14(5) }
+
+type verifRouter2 struct {
+	route *routers.Route
+	mode  int // 0 found, 1 path not found, 2 method not allowed
+}
+
+func (r *verifRouter2) FindRoute(req *http.Request) (*routers.Route, map[string]string, error) {
+	switch r.mode {
+	case 1:
+		return nil, nil, routers.ErrPathNotFound
+	case 2:
+		return nil, nil, routers.ErrMethodNotAllowed
+	}
+	return r.route, map[string]string{}, nil
+}
+
+//verif:harness id=C14 tier=quick,thorough witness=end,served,refused bounds="ValidationHandler (ServeHTTP and Middleware) with the router's answer in {route, path not found, method not allowed} x request: required header present/absent, integer query parameter absent / any 1-2 printable bytes, authentication verdict symbolic x error encoder in {DefaultErrorEncoder, ValidationErrorEncoder around it}: the wrapped handler runs iff a route is found and the request validates; otherwise exactly one error response is written (404 / 405 / 4xx with the validation encoder) and the handler never runs"
+func verifH_C14_validation_handler() {
+	str := &openapi3.SchemaRef{Value: &openapi3.Schema{Type: &openapi3.Types{"string"}}}
+	integer := &openapi3.SchemaRef{Value: &openapi3.Schema{Type: &openapi3.Types{"integer"}}}
+	d := "d"
+	resps := openapi3.NewResponsesWithCapacity(1)
+	resps.Set("200", &openapi3.ResponseRef{Value: &openapi3.Response{Description: &d}})
+	op := &openapi3.Operation{Responses: resps, Parameters: openapi3.Parameters{
+		{Value: &openapi3.Parameter{Name: "X-Req", In: "header", Required: true, Schema: str}},
+		{Value: &openapi3.Parameter{Name: "n", In: "query", Schema: integer}},
+	}, Security: &openapi3.SecurityRequirements{{"A": {}}}}
+	spec := &openapi3.T{Components: &openapi3.Components{SecuritySchemes: openapi3.SecuritySchemes{"A": {Value: &openapi3.SecurityScheme{Type: "http", Scheme: "basic"}}}}}
+	route := &routers.Route{Spec: spec, PathItem: &openapi3.PathItem{Get: op}, Operation: op, Method: "GET"}
+	mode := verifChoose("router", 3)
+	calls := 0
+	inner := http.HandlerFunc(func(w http.ResponseWriter, r *http.Request) {
+		calls++
+		w.WriteHeader(204)
+	})
+	authOK := verifNondetBool("authOK")
+	vh := &ValidationHandler{Handler: inner, router: &verifRouter2{route: route, mode: mode},
+		AuthenticationFunc: func(context.Context, *AuthenticationInput) error {
+			if !authOK {
+				return errors.New("denied")
+			}
+			return nil
+		}}
+	withValidationEncoder := verifChoose("encoder", 2) == 1
+	if withValidationEncoder {
+		vh.ErrorEncoder = (&ValidationErrorEncoder{Encoder: DefaultErrorEncoder}).Encode
+	} else {
+		vh.ErrorEncoder = DefaultErrorEncoder
+	}
+	req := &http.Request{Method: "GET", Header: http.Header{}, URL: &url.URL{Path: "/"}}
+	hasReq := verifChoose("hasReq", 2) == 1
+	if hasReq {
+		req.Header["X-Req"] = []string{"v"}
+	}
+	nOK := true
+	if verifChoose("hasN", 2) == 1 {
+		text := verifLeaf("n", 2, "&=;#%+")
+		req.URL.RawQuery = "n=" + text
+		_, nOK = verifTyped(text, "integer")
+	}
+	req = req.WithContext(context.Background())
+	rec := &verifRecorder{header: http.Header{}}
+	if verifChoose("entry", 2) == 0 {
+		vh.ServeHTTP(rec, req)
+	} else {
+		vh.Middleware(inner).ServeHTTP(rec, req)
+	}
+	valid := mode == 0 && hasReq && nOK && authOK
+	if valid {
+		verifAssert(calls == 1 && rec.status == 204, "C14 handler: route found and request valid => the wrapped handler runs exactly once and its response passes")
+		verifReach("served")
+	} else {
+		verifAssert(calls == 0, "C14 handler: no route or an invalid request => the wrapped handler never runs")
+		verifAssert(rec.wroteHeader && len(rec.body) > 0, "C14 handler: the error encoder answers")
+		if withValidationEncoder {
+			switch {
+			case mode == 1:
+				verifAssert(rec.status == 404, "C14 handler: path not found => 404")
+			case mode == 2:
+				verifAssert(rec.status == 405, "C14 handler: method not allowed => 405")
+			case !authOK:
+				verifAssert(rec.status >= 400 && rec.status < 600, "C14 handler: a refused request is answered with an error status")
+			default:
+				verifAssert(rec.status >= 400 && rec.status < 500, "C14 handler: an invalid request is answered with a client error")
+			}
+		}
+		verifReach("refused")
+	}
+	verifReach("end")
+}
